@@ -4,6 +4,7 @@ import RV.Proofs.OrbitAngles
 import RV.Proofs.OrbitReal
 import RV.Proofs.OrbitPal
 import RV.Proofs.OrbitPalInverse
+import RV.Proofs.OrbitFront
 import RV.Gen.C11Args
 import Mathlib.Data.Rat.Defs
 import Mathlib.Algebra.Order.Field.Rat
@@ -233,6 +234,37 @@ theorem c11_reader_of_constructor_partial (L : Libm K)
     o.ey = e * (L.sin Om * L.cos om + L.cos Om * L.sin om * L.cos inc) ∧
     o.ez = e * (L.sin om * L.sin inc) ∧ o.e = e :=
   reader_of_constructor L htrig hsqrt v G pr m a e inc Om om f t0 P o hP ho hmu ha hasym
+
+/-- FULL (value level): the two front ends build the same particle.  `frontC` is the model of
+    `reb_particle_from_fmt_errV` (tools.c:752-920) and `frontPy` the model of `Particle.__init__`
+    (particle.py:300-431), each in its own operation order and with its own decision chain; both are tied
+    bit for bit to the real code on every run.  For every set of argument values (present or absent, any
+    `G`, `t`, centre of mass), with the documented membership lists, they return the same error number or
+    the same particle in exact arithmetic, provided libm `pow` satisfies `pow x 2 = x·x`, `pow x 3 = x·x·x`,
+    `pow x ½ = sqrt x`, `pow x ⅓ = cbrt x` (the only places where the Python code differs from the C code:
+    `P**2`, `math.pi**2`, `(...)**(1./3.)`, `a**3`, `(...)**0.5`).  In IEEE arithmetic these four equalities
+    hold only to rounding: that is the documented "≤ 4 ulp where a period or pericentre time is converted". -/
+theorem c11_front_ends_same_particle (L : Libm K) (PS : PowSpec L) (v : Variant) (G t : K) (com : Orbit.Part K)
+    (g : FArgs K) :
+    @frontC K L.orbitK v stdTab G t com g = @frontPy K L.orbitK v stdTab G t com g :=
+  front_ends_same_particle L PS v G t com g
+
+/-- … and for the lists extracted from the sources on this run (equal to the documented ones after fix 0bf6f8a) -/
+theorem c11_front_ends_same_particle_gen (L : Libm K) (PS : PowSpec L) (v : Variant) (G t : K) (com : Orbit.Part K)
+    (g : FArgs K) (hC : cTab = stdTab) :
+    @frontC K L.orbitK v cTab G t com g = @frontPy K L.orbitK v pyTab G t com g := by
+  rw [hC, c11_source_tables.1]
+  exact front_ends_same_particle L PS v G t com g
+
+/-- `PowSpec` is satisfiable: over ℚ with `sqrt = cbrt = id` and `pow` defined on the four exponents -/
+example : PowSpec (K := ℚ)
+    { sqrt := id, sin := id, cos := id, fabs := id, tan := id, atan2 := fun x _ => x, acos := id, asin := id, atan := id,
+      exp := id, log := id, sinh := id, cosh := id, tanh := id, acosh := id, cbrt := id, floor := id, ceil := id,
+      pow := fun x y => if y = 2 then x * x else if y = 3 then x * x * x else x, fmod := fun x _ => x, pi := 3, tiny := 0 } where
+  sq := fun x => by simp
+  cube := fun x => by norm_num
+  half := fun x => by norm_num
+  third := fun x => by norm_num
 
 /-- the quadrant logic of `acos2`: for θ ∈ (-π, π], ρ > 0 and a disambiguator with the sign of
     sin θ, `acos2(ρ cos θ, ρ, dis) = θ` (`TrigSpec`: c²+s²=1, cos 0 = 1, cos π = -1,
